@@ -129,6 +129,8 @@ class Engine(ExprMixin, CallMixin, StmtMixin):
     # ------------------------------------------------------------------ quantifier instantiation
     def touch(self, st, k, instantiate=True):
         """register an index term; instantiate the quantified assumptions at it"""
+        if getattr(self, '_instantiating', 0):
+            return          # index terms that only occur inside an instance do not trigger further instances
         if isinstance(k, int):
             k = IntVal(k)
         k = simplify(k)
@@ -138,14 +140,21 @@ class Engine(ExprMixin, CallMixin, StmtMixin):
         st.interest[key] = k
         if instantiate:
             for q in list(st.quants):
-                st.fact(q.instance(k))
+                st.fact(self.inst(q, k))
+
+    def inst(self, q, k):
+        self._instantiating = getattr(self, '_instantiating', 0) + 1
+        try:
+            return q.instance(k)
+        finally:
+            self._instantiating -= 1
 
     def assume_clause(self, st, items):
         for it in items:
             if isinstance(it, QBool):
                 st.quants.append(it)
                 for k in list(st.interest.values()):
-                    st.fact(it.instance(k))
+                    st.fact(self.inst(it, k))
             else:
                 st.assume(it)
 
@@ -158,7 +167,12 @@ class Engine(ExprMixin, CallMixin, StmtMixin):
                 k = fresh('sk', IntSort())
                 if st is not None:
                     self.touch(st, k)
-                gs.append(it.instance(k))
+                g = self.inst(it, k)
+                if st is not None:
+                    # neighbours mentioned by the goal instance (k+1, len-1, ...) are instantiation points too
+                    for sub in _index_terms(g):
+                        self.touch(st, sub)
+                gs.append(g)
             else:
                 gs.append(it)
         return conj(gs)
@@ -536,6 +550,21 @@ class Engine(ExprMixin, CallMixin, StmtMixin):
                 raise Unsupported('modifies path %s of %s' % (path, c.key))
             old = st.field(v, fld)
             st.set_field(v, fld, like(old, fld))
+
+
+def _index_terms(g):
+    """integer terms used as sequence indices (seq.nth) inside a formula"""
+    out, seen, stack = [], set(), [g]
+    while stack:
+        t = stack.pop()
+        if t.get_id() in seen:
+            continue
+        seen.add(t.get_id())
+        if z3.is_app(t):
+            if t.decl().kind() == z3.Z3_OP_SEQ_NTH:
+                out.append(t.arg(1))
+            stack.extend(t.children())
+    return out
 
 
 def _split_types(s):
